@@ -90,7 +90,11 @@ func (a *IBCAdapter) ParsePacket(
 		return nil, core.ErrNoOrbiterPacket.Wrap("data is not ICS20 packet")
 	}
 
-	if packet.GetReceiver() != core.ModuleAddress.String() {
+	// NOTE: the receiver is compared by the account it decodes to, the same way the ICS20
+	// application resolves it, so that every valid encoding of the module address (e.g. the
+	// upper case bech32 form) is handled by the Orbiter.
+	receiver, err := sdk.AccAddressFromBech32(packet.GetReceiver())
+	if err != nil || !receiver.Equals(core.ModuleAddress) {
 		return nil, core.ErrNoOrbiterPacket.Wrap("receiver is not Orbiter module")
 	}
 
